@@ -198,7 +198,9 @@ var Lexical = []Family{
 	{"many_errors_many_lines", func(n int) string { return rep("SELECT FROM;\n", n) }},
 	{"many_lexical_garbage_statements_one_line", func(n int) string { return rep("SELECT a b c d;", n) }},
 	{"in_subquery_over_limit", func(n int) string { return "SELECT a FROM t WHERE " + rep("a IN (SELECT a FROM t WHERE ", n) + "1" }},
-	{"error_far_into_long_line", func(n int) string { return "SELECT 1;" + rep(" ", n) + "SELECT a FROM t WHERE " + strings.Repeat("a IN (SELECT a FROM t WHERE ", 150) }},
+	{"error_far_into_long_line", func(n int) string {
+		return "SELECT 1;" + rep(" ", n) + "SELECT a FROM t WHERE " + strings.Repeat("a IN (SELECT a FROM t WHERE ", 150)
+	}},
 	// DDL, MERGE and the MySQL forms: wide lists inside one statement
 	{"create_table_columns", func(n int) string {
 		return "CREATE TABLE t (" + repIndexed("c{i} INT NOT NULL DEFAULT {i}, ", n) + "z INT)"
